@@ -34,6 +34,27 @@ theorem nolog_absent (vis : Ty → GVal → List String) (f : Field) (fs : List 
     visibleFields vis true (f :: fs) (g :: gs) = visibleFields vis true fs gs :=
   ThriftVerif.Schema.nolog_absent vis f fs g gs hl
 
+/-- The content of a set redacted field is irrelevant to what is shown: replacing it by any other
+set value leaves the shown tokens of the struct unchanged — in String()/Error() and in zap output,
+whether or not the field is also go.nolog. -/
+theorem redacted_content_irrelevant (vis : Ty → GVal → List String) (zap : Bool) (f : Field)
+    (fs : List Field) (g g' : GVal) (gs : List GVal) (hset : g.isNil = false) (hset' : g'.isNil = false)
+    (hr : f.redact = true) :
+    visibleFields vis zap (f :: fs) (g :: gs) = visibleFields vis zap (f :: fs) (g' :: gs) := by
+  cases hl : (zap && f.nolog)
+  · rw [redacted_shows_marker_only vis zap f fs g gs hset hr hl,
+        redacted_shows_marker_only vis zap f fs g' gs hset' hr hl]
+  · simp only [Bool.and_eq_true] at hl
+    obtain ⟨hz, hn⟩ := hl
+    subst hz
+    rw [nolog_absent vis f fs g gs hn, nolog_absent vis f fs g' gs hn]
+
+/-- A go.nolog field — set or unset, whatever it holds — makes no difference to zap output. -/
+theorem nolog_content_irrelevant (vis : Ty → GVal → List String) (f : Field) (fs : List Field)
+    (g g' : GVal) (gs : List GVal) (hl : f.nolog = true) :
+    visibleFields vis true (f :: fs) (g :: gs) = visibleFields vis true (f :: fs) (g' :: gs) := by
+  rw [nolog_absent vis f fs g gs hl, nolog_absent vis f fs g' gs hl]
+
 /-- Every other set field does appear, under its name/label. -/
 theorem others_present (vis : Ty → GVal → List String) (zap : Bool) (f : Field) (fs : List Field)
     (g : GVal) (gs : List GVal) (hset : g.isNil = false) (hr : f.redact = false)
